@@ -340,6 +340,13 @@ func Gen(r *h.Rand, tier string, prop string, emit func([]string)) {
 	for i := 0; i < ne; i++ {
 		emit(epochCase(r, prop))
 	}
+	nc := 70
+	if tier == "thorough" {
+		nc = 350
+	}
+	for i := 0; i < nc; i++ {
+		emit(chainCase(r, prop))
+	}
 	if prop != "c01" {
 		nt := 60
 		if tier == "thorough" {
@@ -349,6 +356,128 @@ func Gen(r *h.Rand, tier string, prop string, emit func([]string)) {
 			emit(tombCase(r, prop))
 		}
 	}
+}
+
+// chainCase: 4-6 snapshots of one series/field with NO compaction in between, whose time ranges
+// overlap pairwise in a chain (a staircase going down or up in time with newer files; neighbours
+// share an overwritten timestamp, non-neighbours do not overlap), optionally with an isolated
+// block at the far end that a cursor consumes first.  Read ascending and descending, over the
+// full range and from seek points inside the chain: the KeyCursor must pull in every block that
+// overlaps the merge window transitively.
+func chainCase(r *h.Rand, prop string) []string {
+	g := newGenState(r, prop)
+	k := g.keys[0]
+	g.keys = []key{k}
+	nf := 4 + r.Intn(3)
+	down := r.Bool()
+	type span struct{ lo, hi int64 }
+	var spans []span
+	cur := int64(40)
+	if !down {
+		cur = 10
+	}
+	var all []int64
+	if r.Chance(0.6) { // isolated block at the far end of the staircase's start
+		t := cur + 3
+		if !down {
+			t = cur - 3
+		}
+		g.emit(fmt.Sprintf("w %d:%d:%d:%d", k.s, k.f, t, g.value(k.f)))
+		g.emit("snap")
+		all = append(all, t)
+	}
+	for i := 0; i < nf; i++ {
+		w := int64(1 + r.Intn(3))
+		var sp span
+		if down {
+			sp = span{cur - w, cur}
+		} else {
+			sp = span{cur, cur + w}
+		}
+		spans = append(spans, sp)
+		// endpoints always, interior points sometimes; batch order shuffled by picking
+		ts := []int64{sp.lo, sp.hi}
+		for t := sp.lo + 1; t < sp.hi; t++ {
+			if r.Chance(0.5) {
+				ts = append(ts, t)
+			}
+		}
+		if r.Chance(0.2) { // an in-batch overwrite
+			ts = append(ts, h.Pick(r, ts))
+		}
+		var es []string
+		for len(ts) > 0 {
+			j := r.Intn(len(ts))
+			es = append(es, fmt.Sprintf("%d:%d:%d:%d", k.s, k.f, ts[j], g.value(k.f)))
+			all = append(all, ts[j])
+			ts = append(ts[:j], ts[j+1:]...)
+		}
+		g.emit("w " + strings.Join(es, ","))
+		if r.Chance(0.15) {
+			g.emit("sb")
+			g.emit("sx")
+		} else {
+			g.emit("snap")
+		}
+		// next file: shares the boundary timestamp (mostly), overlaps by more, or leaves a gap
+		next := sp.lo
+		if !down {
+			next = sp.hi
+		}
+		switch x := r.Intn(10); {
+		case x < 7:
+		case x < 8:
+			if down {
+				next++
+			} else {
+				next--
+			}
+		default:
+			if down {
+				next -= 2
+			} else {
+				next += 2
+			}
+		}
+		cur = next
+	}
+	g.nfiles = nf + 1
+	reads := func() {
+		g.emit(fmt.Sprintf("r %d %d %d %d 0", k.s, k.f, minNano, maxNano))
+		g.emit(fmt.Sprintf("r %d %d %d %d 1", k.s, k.f, minNano, maxNano))
+		for i := 0; i < 3; i++ {
+			a, b := h.Pick(r, all), h.Pick(r, all)
+			if a > b {
+				a, b = b, a
+			}
+			g.emit(fmt.Sprintf("r %d %d %d %d %s", k.s, k.f, a, b, h.B(i%2 == 1)))
+		}
+	}
+	reads()
+	if r.Chance(0.3) { // something still in the cache on top
+		g.emit(fmt.Sprintf("w %d:%d:%d:%d", k.s, k.f, h.Pick(r, all), g.value(k.f)))
+		reads()
+	}
+	if prop != "c01" && r.Chance(0.3) {
+		a, b := h.Pick(r, all), h.Pick(r, all)
+		if a > b {
+			a, b = b, a
+		}
+		g.emit(fmt.Sprintf("d %d %d %d", k.s, a, b))
+		reads()
+	}
+	if prop != "c01" && r.Chance(0.3) {
+		g.emit(h.Pick(r, []string{"reopen", "crash clean"}))
+		reads()
+	}
+	if r.Chance(0.4) {
+		n := len(all) // files: count snapshots emitted
+		_ = n
+		g.emit("files")
+		g.emit(fmt.Sprintf("c %s 1 2", h.Pick(r, kinds)))
+		reads()
+	}
+	return g.ops
 }
 
 // tombCase: several successful range deletes land in the tombstone file of ONE TSM file, with
@@ -583,6 +712,11 @@ func fixedCases(prop string) [][]string {
 				"w 0:0:2:9", "r 0 0 " + all + " 1"},
 		)
 	}
+	// descending read over a chain of overlapping files (KeyCursor.nextDescending)
+	cs = append(cs, []string{"w 0:0:9:1", "snap", "w 0:0:7:2,0:0:8:3", "snap", "w 0:0:5:4,0:0:7:5", "snap", "w 0:0:5:6", "snap",
+		"r 0 0 " + all + " 0", "r 0 0 " + all + " 1", "r 0 0 5 8 0"})
+	cs = append(cs, []string{"w 0:1:1:1", "snap", "w 0:1:3:2,0:1:4:3", "snap", "w 0:1:4:4,0:1:6:5", "snap", "w 0:1:6:6,0:1:7:7", "snap",
+		"r 0 1 " + all + " 1", "r 0 1 " + all + " 0", "r 0 1 3 6 1"})
 	cs = append(cs, []string{"w 0:0:1:1", "snapfail", "r 0 0 0 1000 1", "w 0:0:2:2,0:0:1:5", "snapfail", "r 0 0 0 1000 0", "snap", "files", "r 0 0 0 1000 1"})
 	if prop != "c01" {
 		cs = append(cs,
